@@ -75,6 +75,7 @@ pub fn generated_loads(repo: &str, verif_seed: u64, family: &str, k: u64) -> boo
         "dangling" => Family::Dangling,
         "shared_header" => Family::SharedHeader,
         "jbig_cycle" => Family::JbigCycle,
+        "long_parents" => Family::LongParents,
         _ => Family::Rich,
     };
     let mut pool = Pool::new(repo, verif_seed);
